@@ -24,6 +24,14 @@ def run(tier, seed):
         [(C.get_config_path_c('C20'), None, C.replay_get_config_path)]
     run_contracts(pack, items)
     C.bounded_save_load(pack, 'C20')
+    from contracts.packutil import native_guard
+    pname = 'C20/andes/system.py;andes/routines:config/bounded:option-and-rc-file-values-are-in-effect-when-loaded-the-way-the-command-line-does(option>file>default)'
+    r = native_guard(pack, pname, C.replay_precedence)
+    if r is not None:
+        pack.bounded.append({'function': 'andes.load with every argparse default present, -O options and an rc file (end to end)', 'scenarios': r.get('tried', 0),
+                             'counted_as_proved': False, 'kind': 'bounded native: pjm5bus; TDS.qrt / kqrt / tstep / save_every / tf, PFlow.max_iter, System.freq'})
+        if r.get('confirmed'):
+            pack.violation(pname, {'bounded': True, 'inputs': r.get('inputs'), 'observed': r.get('observed'), 'native_cmd': r.get('native_cmd')})
     C.call_order(pack, 'C20', 'andes/system.py', 'System.__init__',
                  ['load_config_rc', 'self._update_config_object', 'Config', 'self.config.load', 'self.config.add', 'self.config.check'],
                  'file->options->dict->load->defaults->check')
